@@ -12,8 +12,8 @@ REGISTRY = {}
 
 # the clauses each property judges (Refine.tla evaluates all of them; only these can FAIL in a run of that property)
 CLAUSES = {
-    "C01": ["C01_value", "C01_type", "C01_settles"],
-    "C02": ["C02_bag", "C01_value", "C01_type", "C01_settles"],
+    "C01": ["C01_value", "C01_settles"],
+    "C02": ["C02_bag", "C01_value", "C01_settles"],
     "C20": ["C20_exposed", "C20_label", "C20_input", "C01_value", "C02_bag"],
 }
 
@@ -111,7 +111,7 @@ def run_refine(ctx, progs, consts, module="Refine", cfg=None, opts=None, batch_s
     ctx.add("evaluations", len(progs))
     if not items:
         raise Machinery("no program of the corpus slice compiled (%d tried)" % len(progs))
-    c = {"Strict": False, "DomCap": 300, "Seed": ctx.seed, "Clauses": set(CLAUSES.get(ctx.pid, ()))}
+    c = {"Strict": False, "DomCap": 300, "Seed": ctx.seed, "Clauses": list(CLAUSES.get(ctx.pid, ()))}
     c.update(consts or {})
     br = refine.run_batches(ctx.wd, module, cfg, items, c, batch_size=batch_size, timeout=timeout)
     if br.errors:
@@ -119,7 +119,7 @@ def run_refine(ctx, progs, consts, module="Refine", cfg=None, opts=None, batch_s
     ctx.add("states", br.states)
     ctx.add("transitions", br.transitions)
     # acceptance (DESIGN 4.4): every record must have been really exercised
-    vacuous = 0
+    vacuous = unobs = 0
     for it in items:
         s = br.summaries.get(it["id"])
         if s is None:
@@ -133,7 +133,8 @@ def run_refine(ctx, progs, consts, module="Refine", cfg=None, opts=None, batch_s
         ctx.add("settled_states_checked", checked)
         ctx.add("skipped_undefined", undef + corner)
         if unsup != "{}":
-            ctx.add("unsupported_json_feature", 1)
+            ctx.add("unobservable_input" if "input-not-found" in unsup else "unsupported_json_feature", 1)
+            unobs += 1
             continue
         if inits < 1:
             raise Machinery("record %s: no initial state was generated" % it["id"])
@@ -146,6 +147,8 @@ def run_refine(ctx, progs, consts, module="Refine", cfg=None, opts=None, batch_s
             ctx.add("traces_validated_against_impl", 1)
             if len(s) > 6 and s[6].strip() == "2":
                 ctx.add("distinct_nontrivial", 1)
+    if unobs * 20 > len(items):
+        raise Machinery("%d of %d records are unobservable/unsupported (labels reworded or JSON shape changed?)" % (unobs, len(items)))
     if vacuous * 20 > len(items):
         raise Machinery("%d of %d records were never judged (vacuous run)" % (vacuous, len(items)))
     ctx.add("never_judged_records", vacuous)
@@ -179,6 +182,47 @@ def c01(ctx):
                        "every unconsumed named result with the interpreter; non-trivial = the record showed >= 2 distinct expected observations")
     ctx.assumptions = ASSUME_BASE
     run_refine(ctx, sel, consts)
+
+
+@prop("C02")
+def c02(ctx):
+    progs = with_ids(gen.generate("GenBundle"), "bu")
+    ctx.cov["corpus_size"] = len(progs)
+    if ctx.tier == "quick":
+        sel = pick(progs, 130, ctx.seed, always=SMOKE.get("C02", ()))
+        consts = {"DomCap": 125}
+    else:
+        sel = progs
+        consts = {"DomCap": 1000}
+        ctx.cov["exhaustive"] = True
+    ctx.cov["rule"] = ("programs = GenBundle exhaustive core (bundle literals incl. nested/merged, each-arithmetic x operand kinds, "
+                       "filters x output modes x thresholds, gating, any/all, selection, chains) rendered by the spec and compiled by the "
+                       "real compiler; for every boundary valuation TLC compares the WHOLE signal bag on each result's anchor network "
+                       "with the interpreter's bundle (map of non-zero members): a leaked operand, doubled or missing member fails")
+    ctx.assumptions = ASSUME_BASE
+    run_refine(ctx, sel, consts)
+
+
+@prop("C20")
+def c20(ctx):
+    progs = with_ids(gen.generate("GenScalar"), "sc")
+    ctx.cov["corpus_size"] = len(progs)
+    if ctx.tier == "quick":
+        sel = pick(progs, 150, ctx.seed + 1, always=SMOKE.get("C20", ()))
+        consts = {"DomCap": 64}
+    else:
+        sel = progs
+        consts = {"DomCap": 216}
+        ctx.cov["exhaustive"] = True
+    ctx.cov["rule"] = ("every program of the GenScalar core compiled with and without optimisation; TLC checks for each build: producer "
+                       "label = name + line, exactly one anchor (or a constant producer), anchor value = interpreter value, every typed "
+                       "constant declaration present as a labelled constant combinator with its value")
+    ctx.assumptions = ASSUME_BASE
+
+    def item(p, rs):
+        return {"id": p["id"], "stmts": p["stmts"], "u": 1, "u2": 2, "r1both": True, "cmp": [],
+                "bps": [prep_bp(rs[""]["bp"]), prep_bp(rs["#noopt"]["bp"])]}
+    run_refine(ctx, sel, consts, item_fn=item, variants=[("", {}), ("#noopt", {"optimize": False})], batch_size=30)
 
 
 SMOKE = {}
